@@ -12,8 +12,12 @@ import (
 // rich=true: voting round only, right validator-set hash, 2 block entries.
 func vhVotes(rich bool) {
 	n := 2
+	pows := []uint64{1, 1}
+	if verifrt.Thorough() {
+		n, pows = 3, []uint64{1, 1, 1}
+	}
 	keys := vkit.Keys(0, n)
-	e := vhNewMirror(keys, []uint64{1, 1}, 1)
+	e := vhNewMirror(keys, pows, 1)
 
 	precommit := verifrt.Choose("kind", 2) == 1
 	h, r := uint64(1), uint32(0)
@@ -57,7 +61,11 @@ func vhVotes(rich bool) {
 		hash := hashes[(first+i)%3]
 		nSigs := 1
 		if i == 0 {
-			nSigs = 1 + verifrt.Choose("sigs", 2)
+			maxSigs := 2
+			if verifrt.Thorough() {
+				maxSigs = 3
+			}
+			nSigs = 1 + verifrt.Choose("sigs", maxSigs)
 		}
 		var sigs []gcrypto.SparseSignature
 		for j := 0; j < nSigs; j++ {
